@@ -11,8 +11,9 @@ from runner import Case
 PROP = "C05"
 COQ_PROPS = "Props/C05.v"
 HARNESS = {"bin": "core"}
-EXTRA_HARNESS = {"dev": ("dev", ())}
-EXTRA_ORACLE = ["dev"]
+# dev = debug assertions + overflow checks at opt-level 1; dbg0 = a plain unoptimised debug build (largest stack frames)
+EXTRA_HARNESS = {"dev": ("dev", ()), "dbg0": ("dbg0", ())}
+EXTRA_ORACLE = ["dev", "dbg0"]
 THEOREMS = ["see Props/C05.v"]
 LIMIT = 80
 DEPTH_BOUND = 4 * LIMIT
@@ -95,14 +96,24 @@ def gen_cases(rng, tier):
                     for kv in kinds:
                         add(head + dotted(nd) + b" = " + shape(kv, nv, shape("arr", 3)) + b"\n",
                             {"kind": "prod3:%s+dotted+%s" % (hk, kv), "n": nh + nd + nv})
-    # sub-tables of arrays of tables, repeated
-    for n in [10, 40, 78]:
+    # sub-tables of arrays of tables, repeated (every level is an array AND a table: two levels per segment),
+    # alone and followed by a dotted key leading to a nested value: the ADDITIVE maximum of all limits
+    def aot_chain(n):
         t = b""
         p = []
         for i in range(n):
             p.append(b"k")
             t += b"[[" + b".".join(p) + b"]]\n"
-        add(t, {"kind": "aot-chain", "n": n})
+        return t
+    for n in [10, 40, 78]:
+        add(aot_chain(n), {"kind": "aot-chain", "n": n})
+    g4 = [1, 40, 78, 79] if tier == "quick" else [1, 20, 40, 60, 78, 79]
+    for nh in [40, 79]:
+        for nd in g4:
+            for nv in g4:
+                for kv in kinds:
+                    add(aot_chain(nh) + b"j." * (nd - 1) + b"j = " + shape(kv, nv) + b"\n",
+                        {"kind": "aot-chain+dotted+%s" % kv, "n": 2 * nh + nd + nv})
     if tier != "quick":
         for _ in range(3000):
             ks = [rng.choice(kinds) for _ in range(rng.randrange(2, 5))]
@@ -120,10 +131,31 @@ def _fields(line):
     return dict(p.split("=", 1) for p in line.split(" ")[1:] if "=" in p)
 
 
+# known finding C05-additive-depth-unoptimized-stack: the limits bound each construct separately, so a document may
+# legally reach depth 2*79 (chained [[..]] headers) + 79 (dotted key) + 79 (value nesting) = 316; in an UNOPTIMISED
+# build its consumers need more than 2 MiB.  Classifier: the unoptimised build, and the document's measured depth
+# (taken from the release build's observation of the same case) exceeds KNOWN_DEPTH.
+KNOWN_DEPTH = 2 * LIMIT + 80
+
+
+def known_class(case, line):
+    # meta["cur_build"] is set by extra_select while an extra build is being judged; the main pass leaves it unset
+    if line and line.startswith("CRASH") and case.meta.get("depth_seen", 0) > KNOWN_DEPTH and case.meta.get("cur_build") == "dbg0":
+        return "C05-additive-depth-unoptimized-stack"
+    return None
+
+
+def extra_select(case, name):
+    case.meta["cur_build"] = name
+    return True
+
+
 def oracle(case, line):
     m = case.meta
     v = line.split(" ", 1)[0]
     f = _fields(line)
+    if v == "ok" and "depth" in f:
+        m["depth_seen"] = max(m.get("depth_seen", 0), int(f["depth"]))
     if v == "ok":
         d = int(f.get("depth", "0"))
         if d > DEPTH_BOUND:
